@@ -133,8 +133,9 @@ public:
         return i;
       }
     }
-    aid = check_atom_id(atom_number);
-    if (aid < 0) return COLVARS_INPUT_ERROR;
+    // (check_atom_id() returns the positive error code for an invalid number: test the range here, so that
+    //  an invalid atom number does not create a slot)
+    if (aid < 0 || aid >= natoms) { check_atom_id(atom_number); return COLVARS_INPUT_ERROR; }
     int const index = add_atom_slot(aid);
     atoms_masses[index] = m[aid];
     atoms_charges[index] = q[aid];
